@@ -66,7 +66,8 @@ Qed.
 Definition C05_full : Prop :=
   forall c, match c with CQuery m _ q ps => wf_query m q = true /\ params_ok q ps = true
                     | CPages m rows q ps n fuel => wf_pages m q ps = true /\ 0 < n /\ (List.length rows < fuel)%nat
-                    | CNested Q _ ps => q2_ok Q ps = true end ->
+                    | CNested Q _ ps => q2_ok Q ps = true
+                    | CAgg _ _ | CJsel _ _ _ => True end ->
             spec_C05 c (run_C05 c) = true.
 
 Theorem full_refuted : ~ C05_full.
